@@ -13,6 +13,9 @@
                            early exit such as a nesting-depth cap (seeded defect C01-r5-2)
   gc_next_mitems : N -> N   the threshold policy read off `gc->mitems = <expr in gc->nitems>;` in GC_Sweep and GC_Rem
                            (tuning: the theorems hold for every policy)
+  view_internals_registered : bool   the objects the constructors of heap Zip / Slice / Range allocate internally (Zip: iters,
+                           values Tuples; Slice: its Range; Range: its Int) are managed (new), not raw: the model treats them as
+                           ordinary registered nodes with edges to the view's inputs (seeded defect C18-r6-1: new_raw)
   gc_leaf_types   : list string   types GC_Recurse returns on at once
   gc_mark_shape_ok : bool  the functions the model transcribes (GC_Mark_Item, GC_Recurse, GC_Mark's
                            three passes, GC_Mark_Stack, the Mark instances of Array List Table Tree
@@ -267,6 +270,20 @@ def generate(repo, emit, src, func_body):
         emit('gc_finaliser_alloc_widens', 'Definition gc_finaliser_alloc_widens : bool := false.   (* GC_Set widens minptr/maxptr only after `if (gc->freelist isnt NULL) return;` *)')
     else:
         emit('gc_finaliser_alloc_widens', None)
+    # --- heap view objects: which internal objects their constructors allocate, and whether those are MANAGED (new) or raw
+    # (new_raw).  The views have no Mark instance (their words are scanned), so what hangs off a raw internal object is
+    # invisible to the collector: containers reachable only through the view would be reclaimed.
+    it = src('src/Iter.c')
+    zb = norm(func_body(it, r'static\s+void\s+Zip_New\s*\([^{]*\{'))
+    sb = norm(func_body(it, r'static\s+void\s+Slice_New\s*\([^{]*\{'))
+    rbb = norm(func_body(it, r'static\s+void\s+Range_New\s*\([^{]*\{'))
+    allocs = re.findall(r'->(iters|values|range|value)=(new|new_raw|new_root)\((\w+)\)', zb + sb + rbb)
+    want_allocs = [('iters', 'Tuple'), ('values', 'Tuple'), ('range', 'Range'), ('value', 'Int')]
+    if [(f, t) for f, _, t in allocs] == want_allocs:
+        emit('view_internals_registered', 'Definition view_internals_registered : bool := %s.   (* Zip: iters, values; Slice: range; Range: value allocated with %s *)'
+             % ('true' if all(a == 'new' for _, a, _ in allocs) else 'false', ' '.join(a for _, a, _ in allocs)))
+    else:
+        emit('view_internals_registered', None)
     if bad:
         emit('gc_mark_shape_ok (changed: %s)' % ', '.join(bad), None)
     else:
